@@ -93,6 +93,7 @@ type State struct {
 	lastCursorDocs Term
 	entry       *State // state at the entry of the function under contract (for old() in loop invariants)
 	loopHead    map[string]*State
+	loopEntry   map[string]*State
 	loopMark    map[string]int
 	loopVisited map[string]Term
 	loopKey     map[string]Term
